@@ -1,0 +1,58 @@
+// Verification hooks (cargo feature "verif", off by default).
+//
+// Nothing in this module is compiled unless the crate is built with
+// `--features verif`. It re-exports a few private items so that external
+// monitors can observe them, and offers an optional trace / delay facility
+// that is called from inside the parallel sections of `Melda`.
+pub use crate::revision::Revision;
+pub use crate::revisiontree::{RevisionTree, RevisionTreeEntry};
+pub use crate::utils::{
+    apply_diff_patch, digest_bytes, digest_object, digest_string, escape, flatten,
+    generate_identifier, is_array_descriptor, is_flattened_field, make_diff_patch, merge_arrays,
+    unescape, unflatten,
+};
+
+use std::sync::atomic::{AtomicBool, AtomicU64, Ordering};
+use std::sync::Mutex;
+
+static TRACE_ON: AtomicBool = AtomicBool::new(false);
+static DELAY_SEED: AtomicU64 = AtomicU64::new(0);
+static COUNTER: AtomicU64 = AtomicU64::new(0);
+static LOG: Mutex<Vec<(u8, String, Option<usize>)>> = Mutex::new(Vec::new());
+
+/// Switches the event log on or off (off by default)
+pub fn set_trace(on: bool) {
+    TRACE_ON.store(on, Ordering::SeqCst);
+}
+
+/// Sets the seed of the injected delays (0 = no delays, the default)
+pub fn set_delay_seed(seed: u64) {
+    DELAY_SEED.store(seed, Ordering::SeqCst);
+}
+
+/// Returns and clears the recorded events: (point, key, rayon worker index)
+pub fn take_trace() -> Vec<(u8, String, Option<usize>)> {
+    std::mem::take(&mut *LOG.lock().unwrap())
+}
+
+/// Called from the parallel sections before the per-object lock is taken
+pub fn trace(point: u8, key: &str) {
+    let seed = DELAY_SEED.load(Ordering::Relaxed);
+    if seed != 0 {
+        let n = COUNTER.fetch_add(1, Ordering::Relaxed);
+        let mut z = seed.wrapping_add(n.wrapping_mul(0x9E3779B97F4A7C15));
+        z = (z ^ (z >> 30)).wrapping_mul(0xBF58476D1CE4E5B9);
+        z = (z ^ (z >> 27)).wrapping_mul(0x94D049BB133111EB);
+        z ^= z >> 31;
+        if z % 4 == 0 {
+            std::thread::sleep(std::time::Duration::from_micros((z >> 8) % 200));
+        } else if z % 4 == 1 {
+            std::thread::yield_now();
+        }
+    }
+    if TRACE_ON.load(Ordering::Relaxed) {
+        LOG.lock()
+            .unwrap()
+            .push((point, key.to_string(), rayon::current_thread_index()));
+    }
+}
